@@ -119,12 +119,20 @@ func explore(args []string) {
 	seed := fs.Int64("seed", 0, "")
 	budget := fs.Float64("budget", 0, "wall-clock budget in seconds for this worker (0: none); on expiry the result is marked incomplete")
 	debug := fs.Bool("debug", false, "verify goroutine identity at every shim call")
+	fine := fs.Bool("fine", false, "fine-mode sweep: run the scenario with the baselibrary primitives' own locks and atomics as decision points (scenarios that are fine by themselves are skipped)")
 	fs.Parse(args)
 	_ = seed
+	if *fine {
+		vexp.SetForceFine(true)
+	}
 	vexp.SetDebug(*debug)
 	thorough := *tier == "thorough"
 	start := time.Now()
-	res := &result{Property: *prop, Part: *scn, Shard: *shard, NShards: *nshards, Exhaustive: true, Bounds: map[string]any{}, Outcomes: map[string]int64{}}
+	partName := *scn
+	if *fine {
+		partName += "~fine"
+	}
+	res := &result{Property: *prop, Part: partName, Shard: *shard, NShards: *nshards, Exhaustive: true, Bounds: map[string]any{}, Outcomes: map[string]int64{}}
 	var scs []*vexp.Scenario
 	if *scn != "" {
 		if s := vexp.Get(*scn); s != nil {
@@ -144,6 +152,13 @@ func explore(args []string) {
 	var rules []string
 	nondet := false
 	for _, sc := range scs {
+		label := sc.Name
+		if vexp.ForceFine() {
+			if sc.Fine {
+				continue
+			}
+			label += "~fine"
+		}
 		cfgs := []map[string]int{{}}
 		if sc.Configs != nil {
 			cfgs = sc.Configs(thorough)
@@ -153,6 +168,7 @@ func explore(args []string) {
 			b = sc.Bounds(thorough)
 		}
 		var scExec, scPoints int64
+		minLayers := -1
 		scOutcomes := map[string]bool{}
 		complete := true
 		byConfig := len(cfgs) >= 2**nshards // many configurations: distribute configurations, not subtrees
@@ -168,21 +184,24 @@ func explore(args []string) {
 			ex.Explore()
 			st := ex.St
 			scExec += st.Executions
-			res.Outcomes["~runs incl. shared levels: "+sc.Name] += st.Runs
+			res.Outcomes["~runs incl. shared levels: "+label] += st.Runs
 			scPoints += st.Points
 			res.Evaluations += st.Executions
 			res.Transitions += st.Steps
 			res.States += st.Points
 			for k, v := range st.Outcomes {
-				res.Outcomes[sc.Name+": "+k] += v
+				res.Outcomes[label+": "+k] += v
 				scOutcomes[k] = true
 			}
 			if !st.Complete {
 				complete = false
 				res.Exhaustive = false
 			}
+			if minLayers < 0 || st.Layers < minLayers {
+				minLayers = st.Layers
+			}
 			if st.Horizon > 0 {
-				res.Notes = append(res.Notes, fmt.Sprintf("%s [%s]: %d executions hit the step horizon (incomplete)", sc.Name, cfgName(cfg), st.Horizon))
+				res.Notes = append(res.Notes, fmt.Sprintf("%s [%s]: %d executions hit the step horizon (incomplete)", label, cfgName(cfg), st.Horizon))
 				res.Exhaustive = false
 			}
 			for _, n := range st.Nondet {
@@ -191,7 +210,7 @@ func explore(args []string) {
 			}
 			res.ViolationsN += st.ViolationsN
 			for _, v := range st.Violations {
-				res.Violations = append(res.Violations, violation{Sig: sc.Name + ": " + v.Sig, Desc: fmt.Sprintf("scenario %s [%s] bounds %s, %d choices: %s", sc.Name, cfgName(cfg), b, len(v.Choices), v.Desc), Replay: v})
+				res.Violations = append(res.Violations, violation{Sig: label + ": " + v.Sig, Desc: fmt.Sprintf("scenario %s [%s] bounds %s, %d choices: %s", label, cfgName(cfg), b, len(v.Choices), v.Desc), Replay: v})
 			}
 			if len(res.Samples) < 6 && st.Executions > 0 {
 				x := vexp.RunOnce(sc, cfg, nil, true)
@@ -199,12 +218,12 @@ func explore(args []string) {
 				if len(tr) > 40 {
 					tr = append(tr[:40], fmt.Sprintf("... %d more steps", len(x.Trace)-40))
 				}
-				res.Samples = append(res.Samples, map[string]any{"scenario": sc.Name, "config": cfgName(cfg), "default_schedule_steps": x.Steps, "decision_points": len(x.Points), "outcome": x.Ctx.Outcome, "trace": tr})
+				res.Samples = append(res.Samples, map[string]any{"scenario": label, "config": cfgName(cfg), "default_schedule_steps": x.Steps, "decision_points": len(x.Points), "outcome": x.Ctx.Outcome, "trace": tr})
 			}
 		}
 		res.Distinct += int64(len(scOutcomes))
-		rules = append(rules, fmt.Sprintf("%s: %s; %d config(s); bounds %s; complete=%v", sc.Name, sc.Doc, len(cfgs), b, complete))
-		res.Bounds[sc.Name] = map[string]any{"bounds": b.String(), "configs": len(cfgs), "executions": scExec, "complete": complete}
+		rules = append(rules, fmt.Sprintf("%s: %s; %d config(s); bounds %s; complete=%v", label, sc.Doc, len(cfgs), b, complete))
+		res.Bounds[label] = map[string]any{"bounds": b.String(), "configs": len(cfgs), "executions": scExec, "complete": complete, "complete_layers": minLayers}
 	}
 	res.Rule = "stateless DFS over ALL schedules of each scenario within (preemptions p, free switches f, environment deviations e) bounds, real mpx/rpc code under the cooperative scheduler; evaluations = complete executions; states = decision points visited; transitions = scheduler steps; distinct_nontrivial = distinct (scenario, outcome) pairs. " + strings.Join(rules, " | ")
 	res.Wall = time.Since(start).Seconds()
@@ -249,6 +268,9 @@ func replay(args []string) {
 		fmt.Fprintln(os.Stderr, "unknown scenario", v.Scn)
 		os.Exit(2)
 	}
+	if v.Fine {
+		vexp.SetForceFine(true)
+	}
 	x := vexp.RunOnce(sc, v.Params, v.Choices, true)
 	for _, l := range x.Trace {
 		fmt.Println("  ", l)
@@ -267,7 +289,11 @@ func replay(args []string) {
 func selftest(args []string) {
 	fs := flag.NewFlagSet("selftest", flag.ExitOnError)
 	scn := fs.String("scenario", "", "")
+	fine := fs.Bool("fine", false, "self-test the scenario as the fine-mode sweep runs it")
 	fs.Parse(args)
+	if *fine {
+		vexp.SetForceFine(true)
+	}
 	vexp.SetDebug(true)
 	sc := vexp.Get(*scn)
 	if sc == nil {
